@@ -5,7 +5,11 @@ import PyAirtouch.Lemmas.SockHeal
 `Fate c c'`: the trace of `c'` extends the trace of `c`, and every entry queued in `c` is still queued
 in `c'` (same `sid`) or the extension contains an event that says what happened to it: a write attempt
 (`wire`, `deadWrite`, `writeFault`) or a drop (`qdrop`, with its reason).  Holds for every step of the
-model (`step_fate`), hence along every run (`run_fate`).
+model except `open_socket()` on a socket that is not open (`step_fate`), hence along every run without
+`open_socket()` calls (`run_fate`) - in particular along the benign runs of `never_wedges_fate`.
+
+Since /repo 3897b77 `open_socket()` on a closed socket empties the send queue (`self._message_queue.clear()`) and logs
+nothing about the entries it discards; `reopen_not_fate` is the history in which `Fate` fails for that step.
 -/
 namespace PyAirtouch.Lemmas.SockHeal
 open PyAirtouch.Model.Sock PyAirtouch.Spec.Trace PyAirtouch.Lemmas.Sock PyAirtouch.Lemmas.SockConn
@@ -164,7 +168,66 @@ theorem purge_fate (c : Core) :
 theorem execCase_fate {s : Sys} {pc : Pc} {c0 : Core} {kont : Kont} (h : ExecCase s pc c0 kont) : Fate s.core c0 := by
   cases h <;> first | exact Fate.refl _ | exact requeue_fate _ _
 
-theorem step_fate {s s' : Sys} {l : Label} (hrw : rwValid s.core) (hst : step s l = some s') :
+/-- an acceptance -/
+def isAcc : Ev → Bool
+  | .accept .. => true
+  | _ => false
+
+/-- an abstract step extends the trace; it adds `accept` events only together with new identities in `used` -/
+theorem astep_ext {a b : Abs} (h : AStep a b) :
+    ∃ evs us, b.trace = a.trace ++ evs ∧ b.used = a.used ++ us ∧ (us = [] → ∀ ev ∈ evs, isAcc ev = false) := by
+  induction h with
+  | refl a => exact ⟨[], [], by simp, by simp, fun _ ev hev => by cases hev⟩
+  | trans _ _ ih1 ih2 =>
+    obtain ⟨e1, u1, h1, g1, k1⟩ := ih1
+    obtain ⟨e2, u2, h2, g2, k2⟩ := ih2
+    refine ⟨e1 ++ e2, u1 ++ u2, by rw [h2, h1, List.append_assoc], by rw [g2, g1, List.append_assoc], ?_⟩
+    intro hu ev hev
+    simp only [List.append_eq_nil_iff] at hu
+    rcases List.mem_append.1 hev with hev | hev
+    · exact k1 hu.1 ev hev
+    · exact k2 hu.2 ev hev
+  | note a ev hq =>
+    refine ⟨[ev], [], rfl, by simp, fun _ ev' hev' => ?_⟩
+    rw [List.mem_singleton.1 hev']
+    cases ev <;> first | rfl | cases hq
+  | write a e rest wev _ _ hw =>
+    refine ⟨[wev], [], rfl, by simp, fun _ ev' hev' => ?_⟩
+    rw [List.mem_singleton.1 hev']
+    obtain ⟨cid, rfl | rfl | rfl⟩ := hw <;> rfl
+  | burn a sid => exact ⟨[], [sid], by simp, rfl, fun h => by cases h⟩
+  | accept a sid r life ok _ => exact ⟨[_], [sid], rfl, rfl, fun h => by cases h⟩
+  | _ => exact ⟨[], [], by simp, by simp, fun _ ev hev => by cases hev⟩
+
+/-- every step extends the trace (no hypothesis on the label) -/
+theorem step_trace_ext {s s' : Sys} {l : Label} (hst : step s l = some s') :
+    ∃ evs, s'.core.trace = s.core.trace ++ evs := by
+  obtain ⟨evs, _, h, _⟩ := astep_ext (step_abs [] s s' l hst)
+  exact ⟨evs, h⟩
+
+/-- … and only `send()` adds an `accept` event -/
+theorem step_ext_noacc {s s' : Sys} {l : Label} (hst : step s l = some s')
+    (hl : ∀ sid r life ok, l ≠ .apiSend sid r life ok) :
+    ∃ evs, s'.core.trace = s.core.trace ++ evs ∧ ∀ ev ∈ evs, isAcc ev = false := by
+  obtain ⟨evs, us, h, hu, hk⟩ := astep_ext (step_abs [] s s' l hst)
+  refine ⟨evs, h, hk ?_⟩
+  have : usedAfter [] l = [] := by
+    cases l <;> first | rfl | exact absurd rfl (hl _ _ _ _)
+  simpa [abs, absC, this] using hu.symm
+
+/-- the code between two suspension points adds no `accept` event -/
+theorem exec_ext_noacc (c : Core) (k : Kont) :
+    ∃ evs, (exec FUEL c [] k).core.trace = c.trace ++ evs ∧ ∀ ev ∈ evs, isAcc ev = false := by
+  obtain ⟨evs, us, h, hu, hk⟩ := astep_ext (exec_abs' [] c k []).1
+  refine ⟨evs, h, hk ?_⟩
+  simpa [absC] using hu.symm
+
+/-- One step of the model keeps or accounts for every queued entry - except `open_socket()` on a socket that is not
+    open: since /repo 3897b77 that call starts the new session with an empty queue (`self._message_queue.clear()`)
+    and logs nothing about the entries it discards.  Hence the hypothesis `hno` (the label is not a re-open of a
+    closed socket); `reopen_not_fate` below is the history in which the statement fails without it. -/
+theorem step_fate {s s' : Sys} {l : Label} (hrw : rwValid s.core) (hno : l = .apiOpen → s.core.isOpen = true)
+    (hst : step s l = some s') :
     Fate s.core s'.core := by
   cases l with
   | advance t =>
@@ -177,9 +240,10 @@ theorem step_fate {s s' : Sys} {l : Label} (hrw : rwValid s.core) (hst : step s 
   | envFailWrites cid b => simp only [step] at hst; split at hst <;> cases hst; exact Fate.same rfl rfl
   | apiOpen =>
     simp only [step] at hst
-    split at hst <;> cases hst
-    · exact Fate.emit _ _
-    · exact Fate.of_sub [.apiOpen s.core.now] rfl (fun x hx => ⟨x, hx, rfl⟩)
+    split at hst
+    · cases hst; exact Fate.emit _ _
+    · rename_i hc
+      exact absurd (hno rfl) (by simpa [Core.emit] using hc)
   | apiClose =>
     simp only [step] at hst
     split at hst
@@ -222,18 +286,49 @@ theorem step_fate {s s' : Sys} {l : Label} (hrw : rwValid s.core) (hst : step s 
     | readMsg k0 c tag hk0 hpc => exact Fate.emit _ _
     | readEof k0 c hk0 hpc => exact Fate.refl _
 
-theorem run_fate : ∀ (ls : List Label) (s s' : Sys), HInv1 s → run s ls = some s' → Fate s.core s'.core := by
+/-- The history in which `step_fate` fails without `hno`: a message is accepted while the link is down, the socket is
+    closed (the entry stays queued) and opened again.  The re-open empties the queue and appends nothing but its own
+    `apiOpen` event to the trace. -/
+theorem reopen_not_fate : ∃ s s', Reachable s ∧ step s .apiOpen = some s' ∧ s.core.queue.map (·.sid) = [1] ∧
+    s'.core.queue = [] ∧ ¬ Fate s.core s'.core := by
+  refine ⟨_, _, ⟨[.apiOpen, .apiSend 1 2 240 true, .apiClose, .run 3 .go, .run 3 .go], rfl⟩, rfl, by decide, by decide, ?_⟩
+  rintro ⟨evs, ht, hk⟩
+  have hevs : evs = [.apiOpen 0] := List.append_cancel_left (ht.symm.trans (by decide))
+  subst hevs
+  rcases hk ⟨1, 2, 240, true, false⟩ (by decide) with ⟨e', he', _⟩ | ⟨ev, hev, hf⟩
+  · exact List.not_mem_nil he'
+  · rw [List.mem_singleton.1 hev] at hf; cases hf
+
+/-- along a run without `open_socket()` calls (since /repo 3897b77 a re-open of a closed socket discards the queue
+    without a log record, see `step_fate`) -/
+theorem run_fate : ∀ (ls : List Label) (s s' : Sys), HInv1 s → (∀ l ∈ ls, l ≠ .apiOpen) → run s ls = some s' →
+    Fate s.core s'.core := by
   intro ls
   induction ls with
-  | nil => intro s s' _ h; simp only [run, Option.some.injEq] at h; subst h; exact Fate.refl _
+  | nil => intro s s' _ _ h; simp only [run, Option.some.injEq] at h; subst h; exact Fate.refl _
   | cons l ls ih =>
-    intro s s' h1 h
+    intro s s' h1 hno h
     simp only [run] at h
     cases hs : step s l with
     | none => rw [hs] at h; cases h
     | some s1 =>
       rw [hs] at h
-      exact (step_fate h1.rwv hs).trans (ih s1 s' (hinv1_step h1 hs) h)
+      exact (step_fate h1.rwv (fun hl => absurd hl (hno l (by simp))) hs).trans
+        (ih s1 s' (hinv1_step h1 hs) (fun l' hl' => hno l' (by simp [hl'])) h)
+
+/-- benign label sequences contain no API call -/
+theorem benignRun_no_open {d : Nat} : ∀ (ls : List Label) (s : Sys), benignRun d s ls = true → ∀ l ∈ ls, l ≠ .apiOpen := by
+  intro ls
+  induction ls with
+  | nil => intro s _ l hl; cases hl
+  | cons l0 ls ih =>
+    intro s hb l hl
+    simp only [benignRun, Bool.and_eq_true] at hb
+    rcases List.mem_cons.1 hl with rfl | hl
+    · intro hl0; subst hl0; simp [benign] at hb
+    · cases hs : step s l0 with
+      | none => rw [hs] at hb; simp at hb
+      | some s1 => rw [hs] at hb; exact ih s1 hb.2 l hl
 
 /-- the events a run appends to the trace -/
 theorem fate_suffix {c c' : Core} (h : Fate c c') (hq : c'.queue = []) :
@@ -252,6 +347,6 @@ theorem never_wedges_fate {s : Sys} (h : ReachableH s) (ho : s.core.isOpen = tru
       s'.core.now ≤ s.core.now + RETRY_DELAY ∧
       ∀ e ∈ s.core.queue, ∃ ev ∈ s'.core.trace.drop s.core.trace.length, fateEv e.sid ev = true := by
   obtain ⟨ls, s', h1, h2, h3, h4⟩ := never_wedges h ho
-  exact ⟨ls, s', h1, h2, h3, h4, fate_suffix (run_fate ls s s' (hinv1_reachable h.reachable) h2) h3.queue⟩
+  exact ⟨ls, s', h1, h2, h3, h4, fate_suffix (run_fate ls s s' (hinv1_reachable h.reachable) (benignRun_no_open ls s h1) h2) h3.queue⟩
 
 end PyAirtouch.Lemmas.SockHeal
